@@ -602,7 +602,7 @@ func runC12(c *ctx) {
 	}
 	add(big.NewInt(0))
 	r := c.rnd.Derive(2)
-	for i := 0; i < c.pick(300, 20000); i++ {
+	for i := 0; i < c.pick(3000, 20000); i++ {
 		v := new(big.Int).SetUint64(r.U64() >> uint(r.Intn(64)))
 		if r.Bool() {
 			v.Neg(v)
@@ -633,7 +633,7 @@ func runC12(c *ctx) {
 		for _, b := range []uint32{0x7F800000, 0xFF800000, 0x7FC00000, 0xFFC00001, 0x7F7FFFFF, 0xFF7FFFFF, 0, 0x80000000, 1, 0x00800000} {
 			c12Eval(c, c12Case{Op: "float", Kind: k.String(), GoT: "float32", Val: fmt.Sprintf("0x%x", b)})
 		}
-		for i := 0; i < c.pick(20000, 600000); i++ {
+		for i := 0; i < c.pick(100000, 600000); i++ {
 			if r.Bool() {
 				c12Eval(c, c12Case{Op: "float", Kind: k.String(), GoT: "float64", Val: fmt.Sprintf("0x%x", r.U64())})
 			} else {
